@@ -78,6 +78,7 @@ type Knobs struct {
 	WrapAlt         bool // C15: the alternative encoding only wraps runs of consecutive parameters into (nested) dig.In objects, keeping their order
 	PSide           int  // a constructor / decorator body calls String, Visualize, Scope, Provide or Decorate (of an unrelated key) on the container
 	PReenter        int  // C02: probability that a constructor body calls back into the container
+	PNamedSlice     int  // a group parameter / slice-typed group result is declared with a named slice type
 	PZeroRes        int  // a single result / group member is returned as the zero value
 	PDeclIn         int  // a function gets a declared ignore-unexported parameter object (unexported fields between the exported ones)
 
@@ -101,7 +102,7 @@ func DefaultKnobs() Knobs {
 		PFault: 0, PPanic: 30, PDecoSelf: 75, PDecoGroup: 25, PDecoMulti: 20, PDecoExtra: 30,
 		PInvokeAll: 96, PInfo: 0, PCallback: 0, PDefer: 15, PRecover: 30, PHole: 40, PLate: 70, PCycleKeep: 5,
 		NoFaults: true, AvoidDecoCycle: true, PreferAvailable: true,
-		PDeclIn: 6, PZeroRes: 4,
+		PDeclIn: 6, PZeroRes: 4, PNamedSlice: 7,
 	}
 }
 
@@ -227,7 +228,8 @@ type pleaf struct {
 	key      MKey
 	opt      bool
 	soft     bool
-	withPrev bool // placed in the same parameter object as the previous leaf
+	withPrev bool   // placed in the same parameter object as the previous leaf
+	slt      string // named slice type variant of a group leaf
 	// leaf declI of declN of one declared parameter object (types.go)
 	decl         string
 	declI, declN int
@@ -308,6 +310,9 @@ func (g *gen) drawParamLeaves(s, n int, pAvail int, allowGroups bool) []pleaf {
 		}
 		if l.key.Group != "" {
 			l.soft = g.pct(g.k.PSoft, lbl+"soft")
+			if g.pct(g.k.PNamedSlice, lbl+"nsl") {
+				l.slt = g.pickStr([]string{"A", "B"}, lbl+"nslv")
+			}
 		} else {
 			l.opt = g.pct(g.k.POpt, lbl+"opt")
 		}
@@ -340,7 +345,7 @@ func (g *gen) drawParamLeaves(s, n int, pAvail int, allowGroups bool) []pleaf {
 }
 
 func (l pleaf) param() Param {
-	p := Param{T: l.key.T, Name: l.key.Name, Opt: l.opt, Group: l.key.Group, Soft: l.soft}
+	p := Param{T: l.key.T, Name: l.key.Name, Opt: l.opt, Group: l.key.Group, Soft: l.soft, SlT: l.slt}
 	return p
 }
 
@@ -460,6 +465,7 @@ func (g *gen) nestParams(fields []Param, lbl string, depth int) Param {
 }
 
 type rleaf struct {
+	slt     string
 	zero    bool
 	key     MKey
 	impl    string
@@ -470,7 +476,7 @@ type rleaf struct {
 }
 
 func (l rleaf) result() Result {
-	return Result{T: l.key.T, Impl: l.impl, Name: l.key.Name, Group: l.key.Group, Flatten: l.flatten, N: l.n, Nil: l.nilsl, Slice: l.slice, Zero: l.zero && !l.flatten && !l.slice}
+	return Result{T: l.key.T, Impl: l.impl, Name: l.key.Name, Group: l.key.Group, Flatten: l.flatten, N: l.n, Nil: l.nilsl, Slice: l.slice, Zero: l.zero && !l.flatten && !l.slice, SlT: l.slt}
 }
 
 func (g *gen) encodeResults(leaves []rleaf, forceObj bool) []Result {
@@ -602,6 +608,9 @@ func (g *gen) genProvide(s int) Op {
 				l.flatten = true
 				l.n = g.pick(4, lbl+"n")
 				l.nilsl = l.n == 0 && g.pct(50, lbl+"nil")
+				if g.pct(g.k.PNamedSlice, lbl+"nsl") {
+					l.slt = g.pickStr([]string{"A", "B"}, lbl+"nslv")
+				}
 			}
 		} else {
 			// single key: mostly a fresh one
@@ -878,9 +887,16 @@ func (g *gen) genDecorate(s int) (Op, bool) {
 			if isIface(k.T) {
 				l.impl = g.pickStr(Impls[k.T], lbl+"impl")
 			}
+			if g.pct(g.k.PNamedSlice*3, lbl+"nsl") {
+				l.slt = g.pickStr([]string{"A", "B"}, lbl+"nslv")
+			}
 			rl = append(rl, l)
 			if g.pct(g.k.PDecoSelf, lbl+"self") {
-				pl = append(pl, pleaf{key: k})
+				sp := pleaf{key: k}
+				if g.pct(g.k.PNamedSlice*3, lbl+"nslp") {
+					sp.slt = g.pickStr([]string{"A", "B"}, lbl+"nslpv")
+				}
+				pl = append(pl, sp)
 			}
 		} else {
 			l := rleaf{key: k}
